@@ -125,8 +125,19 @@ pub struct Placed {
     pub index: usize,
 }
 
+#[derive(Clone, Debug)]
+pub struct Discard {
+    pub module: Module,
+    pub rendered: String,
+    /// rustc error code (`E0277`); `None` for errors reported by a macro (compile_error!)
+    pub code: Option<String>,
+    /// the error sits inside the expansion of `#[derive(TS)]`
+    pub in_derive_ts: bool,
+}
+
 pub struct Corpus {
     pub modules: Vec<Placed>,
+    pub discards: Vec<Discard>,
     pub discarded_by_rustc: usize,
     pub discarded_samples: Vec<String>,
     pub build_rounds: usize,
@@ -140,6 +151,7 @@ pub fn build(ctx: &Ctx, modules: Vec<Module>, slot_cfg: &subjects::SlotCfg) -> C
     let mut alive: Vec<Option<Module>> = modules.into_iter().map(Some).collect();
     let mut discarded = 0usize;
     let mut discarded_samples = vec![];
+    let mut discards: Vec<Discard> = vec![];
     let mut rounds = 0;
     let mut unattributed_slots = 0usize;
     loop {
@@ -166,6 +178,7 @@ pub fn build(ctx: &Ctx, modules: Vec<Module>, slot_cfg: &subjects::SlotCfg) -> C
         }
         // attribute errors to modules
         let mut bad: BTreeMap<String, String> = BTreeMap::new();
+        let mut bad_meta: BTreeMap<String, (Option<String>, bool)> = BTreeMap::new();
         let mut unattributed = vec![];
         for line in out.lines() {
             let Ok(v) = serde_json::from_str::<Value>(line) else { continue };
@@ -173,6 +186,10 @@ pub fn build(ctx: &Ctx, modules: Vec<Module>, slot_cfg: &subjects::SlotCfg) -> C
                 continue;
             }
             let rendered = v["message"]["rendered"].as_str().unwrap_or("").to_string();
+            let code = v["message"]["code"]["code"].as_str().map(|s| s.to_string());
+            // (errors about the `TS` trait can only stem from the derive's expansion, even when rustc
+            // points at the user's own generic parameter)
+            let in_derive_ts = v["message"].to_string().contains("derive(ts_rs::TS") || rendered.contains("derive macro `ts_rs::TS`") || rendered.contains("trait `TS`") || rendered.contains("ts_rs::TS");
             let mut found = false;
             fn spans_of(msg: &Value, out: &mut Vec<(String, usize)>) {
                 if let Some(sp) = msg["spans"].as_array() {
@@ -204,6 +221,7 @@ pub fn build(ctx: &Ctx, modules: Vec<Module>, slot_cfg: &subjects::SlotCfg) -> C
                             for (name, a, b) in &span_tables[s.min(subjects::NSLOTS - 1)] {
                                 if line_no >= *a && line_no <= *b {
                                     bad.entry(name.clone()).or_insert_with(|| rendered.clone());
+                                    bad_meta.entry(name.clone()).or_insert_with(|| (code.clone(), in_derive_ts));
                                     found = true;
                                 }
                             }
@@ -254,6 +272,8 @@ pub fn build(ctx: &Ctx, modules: Vec<Module>, slot_cfg: &subjects::SlotCfg) -> C
                     if discarded_samples.len() < 5 {
                         discarded_samples.push(format!("{}\n--- module source ---\n{}", msg.chars().take(1500).collect::<String>(), render::render_module(mm).chars().take(3000).collect::<String>()));
                     }
+                    let (code, in_derive_ts) = bad_meta.get(&mm.name).cloned().unwrap_or((None, false));
+                    discards.push(Discard { module: mm.clone(), rendered: msg.clone(), code, in_derive_ts });
                     *m = None;
                     discarded += 1;
                 }
@@ -271,7 +291,7 @@ pub fn build(ctx: &Ctx, modules: Vec<Module>, slot_cfg: &subjects::SlotCfg) -> C
         }
     }
     let _ = unattributed_slots;
-    Corpus { modules: placed, discarded_by_rustc: discarded, discarded_samples, build_rounds: rounds }
+    Corpus { modules: placed, discards, discarded_by_rustc: discarded, discarded_samples, build_rounds: rounds }
 }
 
 /// run `f` for every module, one thread per slot, each with its own server
